@@ -3,5 +3,6 @@ import ArgMapper.Model.GraphImpl
 import ArgMapper.Model.Dijkstra
 import ArgMapper.Model.Traverse
 import ArgMapper.Spec.GraphSpec
+import ArgMapper.Generated.Consts
 import ArgMapper.Driver.Util
 import ArgMapper.Driver.GraphD
